@@ -31,13 +31,14 @@ CONSTANTS
   SourceBits = %s
   FieldBits = %s
   EdBits = %s
+  CtxAll = %s
 INVARIANTS Theorems Dump
 CHECK_DEADLOCK FALSE
-""" % (rng_set(hashb), rng_set(signb), rng_set(srcb), rng_set(fieldb), rng_set(edb))
+""" % (rng_set(hashb), rng_set(signb), rng_set(srcb), rng_set(fieldb), rng_set(edb), "FALSE" if quick else "TRUE")
 
 
 def compact(e):
-    return {k: e[k] for k in ("event", "kind", "h", "mut", "cls", "ok", "err", "conc")} | {
+    return {k: e[k] for k in ("event", "kind", "h", "mut", "cls", "ctx", "ok", "pooled", "holds", "err", "conc")} | {
         "differs_from_base": sorted(k for k, v in e["same"].items() if not v)}
 
 
@@ -61,7 +62,7 @@ def run(ctx):
         tp = os.path.join(ctx.scratch, "trace%02d.ndjson" % k)
         traces.append(tp)
         argvs.append([drv, "--cases", cp, "--out", tp, "--scratch", os.path.join(ctx.scratch, "node%02d" % k),
-                      "--inst", str(8 if quick else 12), "--salt", str(k)])
+                      "--inst", str(4 if quick else 3), "--salt", str(k)])
     outs = ctx.run_parallel(argvs)
     nev = sum(int(o.split("events=")[1].split()[0]) for o in outs)
     # 3. the acceptance predicate evaluated in TLA+ for every event
@@ -75,23 +76,30 @@ def run(ctx):
     hits = selftest_corruption(ctx, "TxAuthTrace", traces[0], corrupt, take=10)
     log("self-test: corrupted event rejected with", sorted({h[2] for h in hits}))
     # 4. vacuity and counts
-    by_cls, muts, samples, seen = {}, {}, [], set()
+    by_cls, muts, samples, seen, ctxs = {}, {}, [], set(), {}
+    ctx_ok = 0
     distinct = set()
     for e in iter_events(traces):
         key = (e["kind"], e["cls"], e["ok"])
         by_cls[key] = by_cls.get(key, 0) + 1
         m = (e["kind"], e["mut"])
         muts[m] = muts.get(m, 0) + 1
-        fam = (e["kind"], e["mut"].split(":")[0], e["ok"])
+        ctxs[e["ctx"]] = ctxs.get(e["ctx"], 0) + 1
+        if e["ctx"] in ("orig-pending", "orig-unmarked", "other-pending"):
+            ctx_ok += e["pending_before"] == 1
+        fam = (e["kind"], e["mut"].split(":")[0], e["ctx"] != "empty", e["ok"])
         if fam not in seen and len(samples) < 14:
             seen.add(fam)
             samples.append(compact(e))
         if e["cls"] != "honest" or e["mut"] != "honest":
-            distinct.add((e["kind"], e["h"], e["mut"], json.dumps(e["tx"], sort_keys=True)))
+            distinct.add((e["kind"], e["h"], e["mut"], e["ctx"], json.dumps(e["tx"], sort_keys=True)))
     for kind in ("native", "eth"):
         require(by_cls.get((kind, "honest", True), 0) > 10, "no honest %s transaction was accepted" % kind, ctx=ctx)
         require(by_cls.get((kind, "auth", False), 0) > 100, "hardly any forged %s transaction was rejected" % kind, ctx=ctx)
         require(by_cls.get((kind, "unauth", True), 0) > 10, "no %s transaction with a changed unauthenticated field was accepted" % kind, ctx=ctx)
+    require(len(ctxs) == 6 and min(ctxs.values()) > 100, "pool contexts not all exercised: %s" % ctxs, ctx=ctx)
+    need = ctxs.get("orig-pending", 0) + ctxs.get("orig-unmarked", 0) + ctxs.get("other-pending", 0)
+    require(ctx_ok == need, "the real pool was not in the intended context in %d of %d events" % (need - ctx_ok, need), ctx=ctx)
     require(len(muts) >= 60, "few mutation classes exercised (%d)" % len(muts), ctx=ctx)
     require(events == nev, "events judged (%d) != events recorded (%d)" % (events, nev), ctx=ctx)
     coverage = {
@@ -102,9 +110,12 @@ def run(ctx):
                 "the owner or another key), chain id of another chain/height (incl. replay), single-bit flips of %s of Hash, "
                 "Sign, Source, of the content fields and of the RLP payload, nil/random/foreign/malleated signatures, "
                 "damaged encodings (case, garbage, truncated, trailing), payloads signed for another chain or without EIP-155, "
-                "and every unauthenticated field; each instantiated %d times with fresh real keys and contents. "
+                "and every unauthenticated field; every case offered in six pool contexts (empty pool, honest original pending / executed in a "
+                "block / executed and rolled back, another transaction of the sender pending, the same transaction delivered before; %s); "
+                "each instantiated %d times with fresh real keys and contents. "
                 "distinct_nontrivial: distinct (kind, height, mutated abstract transaction) other than the plain honest one"
-                % ("a seeded sample of the bit positions" if quick else "every bit position", 8 if quick else 12),
+                % ("a seeded sample of the bit positions" if quick else "every bit position",
+                   "the bit sweeps in the empty pool only" if quick else "full product", 4 if quick else 3),
         "samples": samples,
         "exhaustive": True,
         "states": gen["distinct"],
@@ -113,6 +124,7 @@ def run(ctx):
         "events_validated": events,
         "tlc_cases": len(cases),
         "mutation_classes": len(muts),
+        "events_by_pool_context": ctxs,
         "outcomes": {"%s/%s/%s" % (k[0], k[1], "accepted" if k[2] else "rejected"): v for k, v in sorted(by_cls.items())},
         "failed_judgements": tags,
         "action_coverage": gen["coverage"],
@@ -124,6 +136,7 @@ def run(ctx):
                        "predicate for every event and compares.",
     }
     finish(ctx, "exploration", coverage, [
+        "admission is observed the way the node's receive paths do it (network/worker_conn.go TransactionGotMsg, core/game_executor.go write/runWrite): VerifyTransaction on the pool singleton, then AddTransaction when it returned nil; the pool is put into each context through AddTransaction / MarkExecuted / UnMarkExecuted; the game executor itself (needs the chain and the client network) is not booted",
         "digests and signatures are injective: a damaged hash/signature/encoding is assumed different from every honest one (a bit-flipped signature recovers to nobody's key); the real digests, keys and signatures come from crypto/sha256 and the repository's secp256k1/eth_tx libraries used as generators of inputs",
         "the chain id is made height-dependent by setting LocalChainConfig.OriginalChainId=9400 and Proposal001Block=100 after boot (dev config has one id at all heights)",
         "the honest Ethereum wrapper is the one eth_tx.ConvertTx derives on the submitting node; the driver checks that it declares the nonce/sender/target it chose for the payload",
